@@ -261,7 +261,12 @@ func (p *Proxy) setInjected(b []byte) {
 // execute hands one request body to the scripted agent (through x/crypto's
 // server) or, for raw frames, logs it and returns the registered reply.
 func (p *Proxy) execute(body []byte) []byte {
-	if len(body) == 0 || body[0] >= 0x80 {
+	p.mu.Lock()
+	_, registered := p.raws[string(body)]
+	p.mu.Unlock()
+	// a raw frame: one the test registered (whatever its first byte - smartcard requests 20 / 21 / 26 are relayed raw
+	// by the shim too), or anything outside the standard request codes
+	if registered || len(body) == 0 || body[0] >= 0x80 {
 		p.mu.Lock()
 		ent, ok := p.raws[string(body)]
 		if ok {
